@@ -1,16 +1,191 @@
 /-
   C09 — Concurrent lookups and forgets never lose a reference or duplicate an inode.
 
-  PROPERTY THEOREMS ONLY (model: `Fbr.Conc`; lemmas: `Fbr.Lemmas.Conc*`).
+  PROPERTY THEOREMS ONLY.  Model: `Fbr.Conc` (small-step system of `do_lookup` / `forget_one`,
+  one step = the code between two yield points of hook H1).  Lemmas: `Fbr.Lemmas.Conc{Inv,Store,Step}`
+  (the invariant `Inv` and its preservation by every step of every thread).
+
+  Every theorem below is about `run c (Sys.init progs) sched`: ANY assignment of request programs
+  to ANY number of threads (`progs : Tid → List Op`), ANY schedule (`sched : List Tid`, which may
+  name blocked or finished threads — their step is the identity).  `c.keep` is `!use_host_ino`;
+  with `use_host_ino` the number is `c.pack f`, assumed injective (C08
+  `unique_inode_packing_injective`).  The model is sequentially consistent.
 -/
 import Fbr.Conc
+import Fbr.Lemmas.ConcInv
+import Fbr.Lemmas.ConcStore
+import Fbr.Lemmas.ConcStep
 
 namespace Fbr.Thm.C09
 open Fbr.Conc
 
-/-- A blocked or finished thread's step is the identity (the schedule may name any thread). -/
-theorem disabled_step_is_skip (c : Cfg) (s : Sys) (t : Tid) (h : enabled s t = false) :
-    step c s t = s := by
-  simp [step, h]
+/-- The stored count of every host file equals the increments committed for it (CAS successes,
+    fetch_adds, inserts — `incs f` is the number of completed lookups of `f`, each of which
+    returns right after committing exactly one increment) minus the amounts subtracted by
+    committed forgets — no update is lost, none lands on another file's object —
+    and a stored count is zero only inside the critical section of the forget that is about to
+    remove that very entry (so: positive whenever the map lock is free). -/
+theorem refcount_eq_ghost {c : Cfg} (hinj : ∀ f g, c.pack f = c.pack g → f = g)
+    (progs : Tid → List Op) (sched : List Tid) :
+    let s := reach c progs sched
+    (∀ f, liveCount s.store f + s.decs f = s.incs f)
+    ∧ (∀ i o, s.store.data i = some o → s.store.cells o = 0 → ∃ t n, (s.threads t).pc = .F3 i n o)
+    ∧ (s.lock = .free → ∀ i o, s.store.data i = some o → 0 < s.store.cells o) := by
+  intro s
+  have h : Conc.Inv c s := reach_inv hinj progs sched
+  clear_value s
+  refine ⟨h.sinv.ghost, h.pos, ?_⟩
+  intro hf i o hd
+  apply Nat.pos_of_ne_zero
+  intro hz
+  obtain ⟨t, n, e⟩ := h.pos i o hd hz
+  have := no_holder_of_free h hf t
+  rw [e] at this; simp [holds] at this
+
+/-- Never two live entries for one host file: the store holds at most one `InodeData` per host
+    identity, under one number. -/
+theorem single_entry_per_file {c : Cfg} (hinj : ∀ f g, c.pack f = c.pack g → f = g)
+    (progs : Tid → List Op) (sched : List Tid) :
+    let s := reach c progs sched
+    ∀ i j o o', s.store.data i = some o → s.store.data j = some o' →
+      s.store.objHost o = s.store.objHost o' → i = j ∧ o = o' := by
+  intro s i j o o' hi hj he
+  have h : Conc.Inv c s := reach_inv hinj progs sched
+  clear_value s
+  have a := (h.sinv.dataObj i o hi).2.2
+  have b := (h.sinv.dataObj j o' hj).2.2
+  rw [he, b] at a
+  have e : j = i := Option.some.inj a
+  subst e
+  rw [hi] at hj
+  exact ⟨rfl, Option.some.inj hj⟩
+
+/-- All completed lookups of a file return the same inode number — whichever threads ran them,
+    whenever, and whatever forgets happened in between. -/
+theorem same_number {c : Cfg} (hinj : ∀ f g, c.pack f = c.pack g → f = g)
+    (progs : Tid → List Op) (sched : List Tid) :
+    let s := reach c progs sched
+    ∀ t1 t2 f i j, (f, i) ∈ (s.threads t1).results → (f, j) ∈ (s.threads t2).results → i = j := by
+  intro s t1 t2 f i j h1 h2
+  have h : Conc.Inv c s := reach_inv hinj progs sched
+  clear_value s
+  obtain ⟨a1, b1⟩ := h.resOk t1 f i h1
+  obtain ⟨a2, b2⟩ := h.resOk t2 f j h2
+  cases hk : c.keep
+  · rw [b1 hk, b2 hk]
+  · have := a1 hk; rw [a2 hk] at this; exact (Option.some.inj this).symm
+
+/-- A number returned by a completed lookup stays usable while the client holds references
+    (committed increments exceed committed decrements): it is in the store, denotes that file,
+    and its count is exactly the outstanding references — even if a concurrent forget dropped
+    what was the last previous reference and removed the entry in between. -/
+theorem returned_number_usable {c : Cfg} (hinj : ∀ f g, c.pack f = c.pack g → f = g)
+    (progs : Tid → List Op) (sched : List Tid) :
+    let s := reach c progs sched
+    ∀ t f i, (f, i) ∈ (s.threads t).results → s.decs f < s.incs f →
+      ∃ o, s.store.data i = some o ∧ s.store.objHost o = f
+        ∧ s.store.cells o = s.incs f - s.decs f := by
+  intro s t f i hm hlt
+  have h : Conc.Inv c s := reach_inv hinj progs sched
+  clear_value s
+  have hg := h.sinv.ghost f
+  cases hp : probe s.store f with
+  | none => simp [liveCount, hp] at hg; omega
+  | some o =>
+    obtain ⟨i', hb, hd, hf⟩ := probe_some h.sinv hp
+    have hl : liveCount s.store f = s.store.cells o := by simp [liveCount, hp]
+    obtain ⟨a, b⟩ := h.resOk t f i hm
+    have : i = i' := by
+      cases hk : c.keep
+      · rw [b hk, h.sinv.packed hk f i' hb]
+      · have := a hk; rw [hb] at this; exact (Option.some.inj this).symm
+    subst this
+    exact ⟨o, hd, hf, by omega⟩
+
+/-- At quiescence (every thread has finished its program) the lock is free, every stored entry has
+    a positive count, and for every file the final count is the committed increments (one per
+    completed lookup: `finish` with a lookup result is the only place `incs` grows) minus the
+    amounts forgotten. -/
+theorem final_count {c : Cfg} (hinj : ∀ f g, c.pack f = c.pack g → f = g)
+    (progs : Tid → List Op) (sched : List Tid) :
+    let s := reach c progs sched
+    (∀ t, (s.threads t).pc = .done) →
+      s.lock = .free ∧ (∀ f, liveCount s.store f = s.incs f - s.decs f)
+      ∧ (∀ i o, s.store.data i = some o → 0 < s.store.cells o) := by
+  intro s hdone
+  have h : Conc.Inv c s := reach_inv hinj progs sched
+  clear_value s
+  have hfree : s.lock = .free := by
+    cases hl : s.lock with
+    | free => rfl
+    | w t =>
+      have := (h.lockA t).mp hl
+      rw [hdone t] at this; simp [holds] at this
+  refine ⟨hfree, ?_, ?_⟩
+  · intro f; have := h.sinv.ghost f; omega
+  · intro i o hd
+    apply Nat.pos_of_ne_zero
+    intro hz
+    obtain ⟨t, n, e⟩ := h.pos i o hd hz
+    have := no_holder_of_free h hfree t
+    rw [e] at this; simp [holds] at this
+
+/-- A forget that does not over-count subtracts exactly its count (the saturating subtraction is
+    exact), so for a well-behaved client "amount forgotten" is the sum of the forget counts. -/
+theorem forget_exact (curr n : Nat) (h : n ≤ curr) : curr - (curr - n) = n := by omega
+
+/-- No deadlock: as long as some thread has not finished, some thread can take a step. -/
+theorem no_deadlock {c : Cfg} (hinj : ∀ f g, c.pack f = c.pack g → f = g)
+    (progs : Tid → List Op) (sched : List Tid) :
+    let s := reach c progs sched
+    (∃ t, (s.threads t).pc ≠ .done) → ∃ t, enabled s t = true := by
+  intro s ⟨t, ht⟩
+  have h : Conc.Inv c s := reach_inv hinj progs sched
+  clear_value s
+  cases hl : s.lock with
+  | free =>
+    refine ⟨t, ?_⟩
+    unfold enabled
+    cases hpc : (s.threads t).pc <;> simp_all
+  | w t0 =>
+    refine ⟨t0, ?_⟩
+    have := (h.lockA t0).mp hl
+    unfold enabled
+    cases hpc : (s.threads t0).pc <;> simp_all [holds]
+
+/-- The spin of `do_lookup` at `curr == 0` cannot loop on its own: a thread that loaded a zero
+    count goes back to the probe, and the probe is blocked exactly while the forget that zeroed the
+    count is inside its critical section; the lock holder itself is never blocked. -/
+theorem lock_holder_never_blocked {c : Cfg} (hinj : ∀ f g, c.pack f = c.pack g → f = g)
+    (progs : Tid → List Op) (sched : List Tid) :
+    let s := reach c progs sched
+    ∀ t, s.lock = .w t → enabled s t = true ∧ (s.threads t).pc ≠ .done := by
+  intro s t hl
+  have h : Conc.Inv c s := reach_inv hinj progs sched
+  clear_value s
+  have := (h.lockA t).mp hl
+  unfold enabled
+  cases hpc : (s.threads t).pc <;> simp_all [holds]
+
+/-! ### non-vacuity: concrete runs of the model -/
+
+/-- two concurrent lookups of one file, the second probing before the first inserted
+    (both go through the write-locked path): one entry, count 2, same number -/
+example :
+    let s := reach { keep := true, pack := fun f => 2 ^ 47 + f }
+      (fun t => if t < 2 then [Op.lookup 0] else []) [0, 1, 0, 1, 0, 1]
+    liveCount s.store 0 = 2 ∧ (s.threads 0).results = [(0, 2)] ∧ (s.threads 1).results = [(0, 2)]
+      ∧ s.store.nobj = 1 := by
+  decide
+
+/-- lookup;forget ‖ lookup where the forget zeroes the count between the other thread's load and
+    its compare-exchange: the CAS fails, the lookup retries, re-inserts, and keeps the number -/
+example :
+    let s := reach { keep := true, pack := fun f => 2 ^ 47 + f }
+      (fun t => if t = 0 then [Op.lookup 0, Op.forgetFile 0 1] else if t = 1 then [Op.lookup 0] else [])
+      [0, 0, 0, 1, 1, 1, 0, 0, 0, 0, 1, 1, 1]
+    liveCount s.store 0 = 1 ∧ (s.threads 1).results = [(0, 2)] ∧ s.store.nobj = 2
+      ∧ s.incs 0 = 2 ∧ s.decs 0 = 1 ∧ (s.threads 0).pc = .done ∧ (s.threads 1).pc = .done := by
+  decide
 
 end Fbr.Thm.C09
